@@ -2,6 +2,8 @@
 from __future__ import annotations
 
 import ast
+
+from sa import rx  # noqa: E402
 import re
 
 from sa import cfg as cfgmod
@@ -37,6 +39,7 @@ def run(chk):
 
     r10h(chk, 'R01.l')
     r01m(chk)
+    r01n(chk)
 
 
 # ---------------------------------------------------------------------------
@@ -665,3 +668,40 @@ def r01m(chk, rid='R01.m'):
     hit = [st for st in ast.walk(ex.tree) if isinstance(st, ast.Assign) and isinstance(st.value, ast.Call) and any(isinstance(a, ast.Name) and a.id == st.targets[0].id for a in st.value.args)]
     if len(hit) != 1:
         raise AnalysisError('R01.m: positive example not recognised')
+
+
+TOKEN_SAMPLES = {
+    'URI': ['url()', 'url( )', 'url(\t\n)', 'url("")', "url('')", 'url( "" )', 'url(x)', 'url( x )', 'url("x")', "url('x')", 'url("\\"")', "url('\\'')", 'url(")")', "url(\"'\")", 'url(\\))', 'URL()', 'url(\\22 )', 'url(")', "url(')", 'url("'],
+    'STRING': ['""', "''", '"x"', "'x'", '"\\""', "'\\''", '"\'"', '\'"\'', '"\\\n"', '"a\\"b\\"c"'],
+}
+
+
+def r01n(chk, rid='R01.n'):
+    chk.rule(rid, 'the token-value helpers are total on their token kind, decided by evaluation: Base._stringtokenvalue and Base._uritokenvalue (and helper.stringvalue / helper.urivalue, which the value productions use) are evaluated on their syntax trees on boundary members of the STRING and URI token languages - empty and blank content, each quote kind, escaped quotes, a lone quote character as the whole content - membership being decided on the automaton of the production: none of them raises, a missing token gives None, and a quoted form gives the text between its quotes')
+    chk.assume('R01.n: the helpers look at the first and last character of the content and replace the escaped quote; the samples contain every combination of empty / one character / quote at either end')
+    from sa.absint import Evaluator, Raised, Record
+
+    from .tables import TokTables
+
+    tt = TokTables(chk.repo)
+    um = chk.repo.mod('cssutils/util.py')
+    hm = chk.repo.mod('cssutils/helper.py')
+    n = 0
+    for kind, meth, hfn in (('STRING', 'Base._stringtokenvalue', 'stringvalue'), ('URI', 'Base._uritokenvalue', 'urivalue')):
+        nfa = tt.nfa(kind)
+        samples = [s for s in TOKEN_SAMPLES[kind] if rx.accepts(nfa, s)]
+        if len(samples) < 8:
+            raise AnalysisError(f'R01.n: only {len(samples)} of the {kind} samples are {kind} tokens')
+        fn = um.get(meth)
+        hf = hm.get(hfn)
+        for s in samples:
+            for label, run in ((meth, lambda s=s: Evaluator(fn, module=um, cls='Base').run(self=Record(), token=(kind, s, 1, 1))),
+                               (f'helper.{hfn}', lambda s=s: Evaluator(hf, module=hm).run(**{hf.args.args[0].arg: s}))):
+                got = run()
+                n += 1
+                ok = isinstance(got, str)
+                chk.ob(rid, 'cssutils/util.py' if label == meth else 'cssutils/helper.py', label.split('Base.')[-1], f'{kind} token {s!r} has a value', ok,
+                       f'{got!r}: the exception leaves parseString (the callbacks call the helper outside any handler)', trivial=True)
+        got = Evaluator(fn, module=um, cls='Base').run(self=Record(), token=None)
+        chk.ob(rid, 'cssutils/util.py', meth.split('.')[-1], 'no token gives None', got is None, f'{got!r}')
+    chk.extra['token_value_cases'] = n
